@@ -354,14 +354,15 @@ def xlsb_bytes(rng, wb):
             box = (min(rs), min(cs), max(rs), max(cs))
         else:
             box = (0, 0, 0, 0)
-        d = rng.choice(["exact", "small", "large"])
+        d = rng.choice(["exact", "small", "large", "absent"])   # BrtWsDim is optional
         if d == "small":
             box = (box[0], box[1], box[0] + (box[2] - box[0]) // 2, box[1] + (box[3] - box[1]) // 2)
         elif d == "large":
             box = (0, 0, box[2] + 5, box[3] + 2)
         dim_body = struct.pack("<IIII", box[0], box[2], box[1], box[3])
-        L = {"pre1": [{"fr": fr(0x81, b""), "id": 0x81, "body": b""}],
-             "dim": {"fr": fr(0x94, dim_body), "d": box, "tail": b""},
+        d_rec = None if d == "absent" else {"fr": fr(0x94, dim_body), "d": box, "tail": b""}
+        L = {"pre1": [("R", {"fr": fr(0x81, b""), "id": 0x81, "body": b""})],
+             "dim": d_rec,
              "pre2": [], "begin": (fr(0x91, b""), b""), "items": items, "end": (fr(0x92, b""), b""), "trailer": b""}
         sheets.append((sh["name"][:31], xlsbgen.enc_layout(L)))
     env = {"fmts": [0], "xf_ids": [0], "customs": [], "d1904": False, "strings": []}
